@@ -49,6 +49,10 @@ def points(tier: str) -> List[Dict[str, Any]]:
             for ttl_arg in (None, 300):
                 pts.append({"kind": "peer", "mix": mix, "ttls": "default", "allow": allow, "tc": tc, "c2": None, "chain": 0,
                             "used": used, "ttl_arg": ttl_arg})
+    # no host name given: the library then uses the instance name as host name - which instance name, if it renames?
+    for mix, allow, tc in itertools.product(("v4", "dual"), (False, True), (None, -100, 100, 300)):
+        pts.append({"kind": "peer", "mix": mix, "ttls": "default", "allow": allow, "tc": tc, "c2": None, "chain": 0,
+                    "noserver": True})
     # unrelated traffic: responses that put *new* records of other services into the cache while the registration waits
     # between two probes (every new record wakes all waiters of the instance)
     for noise in ((40, 80), (200,), (40, 80, 200, 260), (174, 349), (1, 176)):
@@ -166,6 +170,10 @@ def run_point(p: Dict[str, Any], verbose: bool = False) -> Tuple[Optional[Dict[s
         a = w.new_zeroconf(name="registrant")
         result: Dict[str, Any] = {}
         info = make_info(desc)
+        if p.get("noserver"):
+            from zeroconf import ServiceInfo
+            info = ServiceInfo(desc.type, desc.name, desc.port, desc.weight, desc.priority, desc.text, None, desc.host_ttl,
+                               desc.other_ttl, addresses=desc.v4 + desc.v6)
         if p.get("used") == "built":
             info.dns_pointer(), info.dns_service(), info.dns_text(), info.dns_addresses(), info.dns_nsec([1, 28])
             info.get_address_and_nsec_records()
@@ -297,6 +305,10 @@ def run_point(p: Dict[str, Any], verbose: bool = False) -> Tuple[Optional[Dict[s
                 check_probes(problems, trace, cycles, t0)
                 last_start = cycles[-1][0]
                 want_desc = desc
+                if p.get("noserver"):
+                    # the host name defaults to the name the service is finally registered under
+                    want_desc = Svc(desc.type, desc.name, final_name, desc.port, desc.text, desc.v4, desc.v6,
+                                    desc.host_ttl, desc.other_ttl)
                 check_announcements(problems, trace, want_desc, final_name, last_start + 350, t0, forbidden)
                 if info.name != final_name:
                     problems.append(f"outcome: ServiceInfo.name is {info.name}, registered as {final_name}")
